@@ -172,7 +172,7 @@ var opWeights = []struct {
 	{"Div", 4}, {"Inverse", 3}, {"Sqrt", 3}, {"Exp", 1}, {"Eval", 3}, {"Reduce", 4}, {"ReduceStrict", 3},
 	{"Select", 3}, {"Lookup2", 2}, {"Mux", 2}, {"FromBits", 2}, {"BitsRoundTrip", 1}, {"ToBits", 3}, {"ToBitsCanonical", 2},
 	{"IsZero", 3}, {"AssertIsEqual", 4}, {"AssertIsDifferent", 2}, {"AssertIsInRange", 3}, {"AssertIsLessOrEqual", 2},
-	{"PUMP", 6}, {"SHORT", 5},
+	{"PUMP", 6}, {"SHORT", 5}, {"STRICTSEL", 6},
 }
 
 func drawOpName(t *rapid.T) string {
@@ -286,6 +286,85 @@ func genCase(cfg genConfig) *rapid.Generator[Case] {
 				}
 			}
 			switch name {
+			case "STRICTSEL":
+				// a selection (Mux / Select / Lookup2) that mixes strictly reduced elements with ONE element that is not
+				// (a non-canonical witness when there is one, else an unreduced computation result), at every position
+				// and with the selector mostly on it, followed by the ops whose documented result is that of the
+				// canonical representative
+				var noncanon []int
+				for i := range c.In {
+					if c.In[i].Kind == "w" && m.pool[i].exact != nil && m.pool[i].exact.Cmp(ps.Q) >= 0 {
+						noncanon = append(noncanon, i)
+					}
+				}
+				odd := a0
+				if len(noncanon) > 0 && rapid.IntRange(0, 4).Draw(t, "ss-noncanon") != 0 {
+					odd = rapid.SampledFrom(noncanon).Draw(t, "ss-odd")
+				}
+				kind := rapid.SampledFrom([]string{"Mux", "Mux", "Mux", "Select", "Lookup2"}).Draw(t, "ss-kind")
+				k := 2
+				switch kind {
+				case "Mux":
+					k = rapid.IntRange(2, 5).Draw(t, "ss-arity")
+				case "Lookup2":
+					k = 4
+				}
+				// k-1 strictly reduced companions: ReduceStrict of pool elements, or a canonical input asserted in range
+				var comp []int
+				okc := true
+				for j := 0; j < k-1 && okc; j++ {
+					x := pick(t, n, "ss-src")
+					if x < len(c.In) && c.In[x].Kind == "w" && m.pool[x].exact.Cmp(ps.Q) < 0 && rapid.Bool().Draw(t, "ss-inrange") {
+						okc = push(Op{Op: "AssertIsInRange", A: []int{x}})
+						comp = append(comp, x)
+					} else {
+						_, mm := cur()
+						okc = push(Op{Op: "ReduceStrict", A: []int{x}})
+						comp = append(comp, len(mm.pool))
+					}
+				}
+				if !okc {
+					break
+				}
+				pos := rapid.SampledFrom([]int{0, k / 2, k - 1, k - 1}).Draw(t, "ss-pos") // first / middle / LAST
+				as := make([]int, 0, k)
+				ci := 0
+				for j := 0; j < k; j++ {
+					if j == pos {
+						as = append(as, odd)
+					} else {
+						as = append(as, comp[ci])
+						ci++
+					}
+				}
+				selIdx := pos
+				if rapid.IntRange(0, 3).Draw(t, "ss-other") == 0 {
+					selIdx = rapid.IntRange(0, k-1).Draw(t, "ss-sel")
+				}
+				_, mm := cur()
+				res := len(mm.pool)
+				var okSel bool
+				switch kind {
+				case "Mux":
+					okSel = push(Op{Op: "Mux", A: as, S: []int{selIdx}})
+				case "Select":
+					// Select returns the first operand when the selector is 1
+					okSel = push(Op{Op: "Select", A: as, S: []int{1 - selIdx}})
+				case "Lookup2":
+					okSel = push(Op{Op: "Lookup2", A: as, S: []int{selIdx & 1, selIdx >> 1}})
+				}
+				if !okSel {
+					break
+				}
+				for _, f := range rapid.SliceOfNDistinct(rapid.SampledFrom([]string{"ToBitsCanonical", "ReduceStrict", "IsZero", "AssertIsInRange",
+					"AssertIsLessOrEqual", "ToBits"}), 1, 3, rapid.ID[string]).Draw(t, "ss-follow") {
+					switch f {
+					case "AssertIsLessOrEqual":
+						push(Op{Op: f, A: []int{res, comp[0]}})
+					default:
+						push(Op{Op: f, A: []int{res}})
+					}
+				}
 			case "SHORT":
 				// an element on fewer limbs than the modulus (FromBits of few bits, often the low bits of the modulus),
 				// then the consumers that index limbs or size hints by the operand length
